@@ -216,6 +216,9 @@ class Analysis:
                 return Analysis.id(index, node)
         if isinstance(node, pr.UnaryOp):
             return Analysis.unary_op(index, node)
+        if isinstance(node, pr.Cast):  # (type) e; has the effect of e;
+            return Analysis.compute_relation(
+                index, Analysis.rm_cast(node), dg)
         if isinstance(node, pr.ExprList):  # e1, e2, ...: evaluated in order
             return Analysis.compound(index, pr.Compound(node.exprs), dg)
         if isinstance(node, pr.Label):  # a label is only a marker
